@@ -422,3 +422,17 @@ package part
 //@ func Ops.Prefix returns (it, watch)
 //@   trusted
 //@   ensures watch == prefixWatchOf(recv, keyId(key)) && onlyFresh()
+
+// Notify (C12, C06): the root channel of the tree the transaction started from is closed exactly
+// when the transaction changed something (dirty) - not when some pointer happens to differ -
+// a clean transaction closes nothing at all, and the set of recorded channels is emptied.
+//@ func (*Txn).Notify
+//@   property C12 C06
+//@   flag nosafety
+//@   maypanic
+//@   requires txn != nil && txn.watches != nil && len(txn.watches) >= 0
+//@   ensures @root-watch-closed-when-dirty old(txn.dirty) && old(txn.rootWatch) != nil ==> closed(old(txn.rootWatch)) && txn.rootWatch == nil
+//@   ensures @nothing-closed-when-clean !old(txn.dirty) ==> unchanged(CH_closed) && txn.rootWatch == old(txn.rootWatch)
+//@   ensures @watches-emptied forall c ptr :: !has(txn.watches, c)
+//@   loop 1 invariant @count 0 <= $n && $n <= len(txn.watches) && txn.watches == old(txn.watches) && txn.dirty == old(txn.dirty) && txn.rootWatch == old(txn.rootWatch)
+//@   loop 1 invariant @untouched-before-first $n == 0 ==> unchanged(CH_closed)
